@@ -193,6 +193,15 @@ impl TransactionBuilder {
       }
     }
 
+    if let Target::Value(output_value) | Target::ExactPostage(output_value) = self.target
+      && output_value == Amount::ZERO
+    {
+      return Err(Error::Dust {
+        output_value,
+        dust_value: Amount::from_sat(1),
+      });
+    }
+
     self
       .select_outgoing()?
       .align_outgoing()
